@@ -226,3 +226,75 @@ M('c02-grad-src-inv-worker', 'C02', 'COH-SRC', 'gradient broadcast from the inve
   (BP, "                    src=self._assignment.src_grad_worker(name),", "                    src=self._assignment.inv_worker(name, 'A'),"))
 M('c02-wrong-decay', 'C02', 'COH-SRC', 'G factor averaged with damping as decay',
   (BP, "                layer.update_g_factor(alpha=self.factor_decay)\n                layer.reduce_g_factor(self._assignment.factor_group(name, 'G'))\n\n        # Flush", "                layer.update_g_factor(alpha=self.damping)\n                layer.reduce_g_factor(self._assignment.factor_group(name, 'G'))\n\n        # Flush"))
+
+# ---------------------------------------------------------------- C17 / C06 / C12 (assignment)
+M('c17-max-group', 'C17', 'DIR-MIN', 'most-loaded group chosen',
+  (AS, "                worker_group_loads.index(min(worker_group_loads))", "                worker_group_loads.index(max(worker_group_loads))"))
+M('c17-ascending', 'C17', 'DIR-SORT', 'layers placed in increasing cost',
+  (AS, "                key=lambda item: item[1],\n                reverse=True,", "                key=lambda item: item[1],"))
+M('c17-sort-by-name', 'C17', 'DIR-SORT', 'layers ordered by name',
+  (AS, "                key=lambda item: item[1],\n                reverse=True,", "                key=lambda item: item[0],\n                reverse=True,"))
+M('c17-stale-group-loads', 'C17', 'DET-STALE', 'group loads hoisted out of the layer loop',
+  (AS, "        for layer in sorted_groups:\n            # Sum up loads across workers in each worker group\n            worker_group_loads = [\n                sum(worker_loads[i] for i in group) for group in worker_groups\n            ]\n",
+       "        worker_group_loads = [\n            sum(worker_loads[i] for i in group) for group in worker_groups\n        ]\n        for layer in sorted_groups:\n"))
+M('c17-stale-worker-loads', 'C17', 'DET-STALE', 'worker loads computed once per layer in the per-factor branch',
+  (AS, "                for factor, cost in factors:\n                    _worker_group_loads = [\n                        worker_loads[i] for i in worker_group\n                    ]\n", "                _worker_group_loads = [\n                    worker_loads[i] for i in worker_group\n                ]\n                for factor, cost in factors:\n"))
+M('c17-index-as-rank', 'C17', 'COH-CONFINE', 'position in the group used as the rank',
+  (AS, "                min_worker = worker_group[\n                    _worker_group_loads.index(min(_worker_group_loads))\n                ]\n                worker_loads[min_worker] += summed_work[layer]", "                min_worker = _worker_group_loads.index(min(_worker_group_loads))\n                worker_loads[min_worker] += summed_work[layer]"))
+M('c17-wrong-group-index', 'C17', 'COH-CONFINE', 'worker index applied to the list of all groups',
+  (AS, "                    min_worker = worker_group[\n                        _worker_group_loads.index(min(_worker_group_loads))\n                    ]\n                    worker_loads[min_worker] += cost", "                    min_worker = worker_groups[0][\n                        _worker_group_loads.index(min(_worker_group_loads))\n                    ]\n                    worker_loads[min_worker] += cost"))
+M('c17-load-not-updated', 'C17', 'AFF-LOAD', 'per-factor load update dropped',
+  (AS, "                    worker_loads[min_worker] += cost\n", ""))
+M('c17-load-wrong-cost', 'C17', 'AFF-LOAD', 'colocated load grows by 1',
+  (AS, "                worker_loads[min_worker] += summed_work[layer]", "                worker_loads[min_worker] += 1"))
+M('c17-global-state', 'C17', 'DET-PURE', 'tie-break reads a module-level counter',
+  (AS, "        worker_loads = [0.0] * world_size\n", "        worker_loads = [0.0] * world_size\n        worker_loads[0] += _BIAS\n"),
+  (AS, "@dataclass(frozen=True)\nclass _Group:", "_BIAS = 0.0\n\n\n@dataclass(frozen=True)\nclass _Group:"))
+M('c17-set-order', 'C17', 'DET-HASH', 'layers ordered through a set of names',
+  (AS, "        sorted_groups = [\n            layer\n            for layer, _ in sorted(\n                summed_work.items(),\n                key=lambda item: item[1],\n                reverse=True,\n            )\n        ]", "        sorted_groups = sorted(\n            set(summed_work),\n            key=summed_work.__getitem__,\n            reverse=True,\n        )"))
+T('c17-twin-negated-key', 'C17', 'sorted by negated cost',
+  (AS, "                key=lambda item: item[1],\n                reverse=True,", "                key=lambda item: -item[1],"))
+T('c17-twin-rename', 'C17', 'renamed load list',
+  (AS, "                _worker_group_loads = [worker_loads[i] for i in worker_group]\n                min_worker = worker_group[\n                    _worker_group_loads.index(min(_worker_group_loads))\n                ]", "                loads_here = [worker_loads[r] for r in worker_group]\n                min_worker = worker_group[\n                    loads_here.index(min(loads_here))\n                ]"))
+
+M('c06-int-truncation', 'C06', 'FLT-INT', 'int() after the tolerant test',
+  (AS, "            grad_workers = round(grad_workers)", "            grad_workers = int(grad_workers)"))
+M('c06-exact-integrality', 'C06', 'FLT-INT', 'revert of F3',
+  (AS, "        if not math.isclose(grad_workers, round(grad_workers)):", "        if grad_workers != int(grad_workers):"))
+M('c06-rank-tiebreak', 'C06', 'DET-UNIF', 'greedy assignment seeded with the local rank',
+  (AS, "        self._inv_assignments = self.greedy_assignment(\n            work,\n            [list(ranks) for ranks in grad_worker_ranks],", "        self._inv_assignments = self.greedy_assignment(\n            work,\n            [list(ranks) for ranks in grad_worker_ranks][self.local_rank % 1:],"))
+M('c06-row-for-column', 'C06', 'COH-GRID', 'worker group looked up among the receiver rows',
+  (AS, "            for ranks in grad_worker_ranks:\n                if inv_worker in ranks:", "            for ranks in grad_receiver_ranks:\n                if inv_worker in ranks:"))
+M('c06-handle-mismatch', 'C06', 'COH-GRID', 'receiver record gets the handle of the worker ranks',
+  (AS, "                    self._grad_receiver_groups[layer] = _Group(\n                        ranks=ranks,\n                        group=ranks_to_communication_group[ranks],", "                    self._grad_receiver_groups[layer] = _Group(\n                        ranks=ranks,\n                        group=self._grad_worker_groups[layer].group,"))
+M('c06-stride-grad-workers', 'C06', 'AFF-GRID', 'columns strided by the worker count',
+  (AS, "            frozenset(range(i, world_size, partitions))\n            for i in range(partitions)", "            frozenset(range(i, world_size, grad_workers))\n            for i in range(partitions)"))
+M('c06-rows-off', 'C06', 'AFF-GRID', 'rows of the wrong length',
+  (AS, "            frozenset(range(i * partitions, i * partitions + partitions))", "            frozenset(range(i * partitions, i * partitions + grad_workers))"))
+M('c06-src-from-worker-group', 'C06', 'COH-GRID', 'gradient source = minimum of the worker group',
+  (AS, "        return set(\n            self._grad_worker_groups[layer].ranks\n            & self._grad_receiver_groups[layer].ranks,\n        ).pop()", "        return min(self._grad_worker_groups[layer].ranks)"))
+M('c06-group-only-members', 'C06', 'S4', 'process groups created only by their members',
+  (AS, "            ranks_to_communication_group[ranks] = self.group_func(list(ranks))", "            ranks_to_communication_group[ranks] = (\n                self.group_func(list(ranks)) if self.local_rank in ranks else None\n            )"))
+T('c06-twin-rows-factored', 'C06', '(i+1)*partitions',
+  (AS, "            frozenset(range(i * partitions, i * partitions + partitions))", "            frozenset(range(i * partitions, (i + 1) * partitions))"))
+T('c06-twin-sorted-ranks', 'C06', 'group_func(sorted(ranks))',
+  (AS, "            ranks_to_communication_group[ranks] = self.group_func(list(ranks))", "            ranks_to_communication_group[ranks] = self.group_func(sorted(ranks))"))
+
+M('c12-index-as-rank', 'C12', 'COH-CONFINE', 'peer index stored as the inverse worker',
+  (GA, "            min_worker = self.pipe_parallel_peers[min_worker_index]", "            min_worker = min_worker_index"))
+M('c12-max-load', 'C12', 'DIR-MIN', 'most loaded peer chosen',
+  (GA, "            min_worker_index = worker_loads.index(min(worker_loads))", "            min_worker_index = worker_loads.index(max(worker_loads))"))
+M('c12-no-tiebreak', 'C12', 'DET-TIE', 'sort key without the name',
+  (GA, "            key=lambda item: (item[1], item[0]),", "            key=lambda item: (item[1],),"))
+M('c12-factor-worker-mp-inv', 'C12', 'ROLE-GRP', 'factor worker uses the model-parallel group of the inverse worker',
+  (GA, "        data_parallel_ranks = get_group_with_rank(\n            inv_rank,\n            self.data_parallel_groups,\n        )", "        data_parallel_ranks = get_group_with_rank(\n            inv_rank,\n            self.model_parallel_groups,\n        )"))
+M('c12-src-self-mp', 'C12', 'ROLE-GRP', 'gradient source from the own model-parallel group',
+  (GA, "        model_parallel_ranks = get_group_with_rank(\n            src_rank,\n            self.model_parallel_groups,\n        )", "        model_parallel_ranks = get_group_with_rank(\n            self.local_rank,\n            self.model_parallel_groups,\n        )"))
+M('c12-range-membership', 'C12', 'ROLE-GRP', 'range test instead of membership',
+  (GU, "        if rank in group:", "        if group[0] <= rank <= group[-1]:"))
+M('c12-revert-f5', 'C12', 'S4', 'stage group created only on its members (revert of F5)',
+  (GA, "            stage_peers: dict[int, list[int]] = {}\n            for r in range(topology.world_size()):\n                stage_peers.setdefault(topology.get_coord(r).pipe, []).append(r)\n            self.pipe_parallel_peer_group = None\n            for stage in sorted(stage_peers):\n                stage_group = dist.new_group(stage_peers[stage])\n                if stage == self.pipe_parallel_rank:\n                    self.pipe_parallel_peer_group = stage_group\n", "            self.pipe_parallel_peer_group = dist.new_group(\n                self.pipe_parallel_peers,\n            )\n"))
+M('c12-reuse-mp-always', 'C12', 'GRP-REUSE', 'model-parallel group reused as the stage group',
+  (GA, "            stage_peers: dict[int, list[int]] = {}\n            for r in range(topology.world_size()):\n                stage_peers.setdefault(topology.get_coord(r).pipe, []).append(r)\n            self.pipe_parallel_peer_group = None\n            for stage in sorted(stage_peers):\n                stage_group = dist.new_group(stage_peers[stage])\n                if stage == self.pipe_parallel_rank:\n                    self.pipe_parallel_peer_group = stage_group\n", "            self.pipe_parallel_peer_group = self.model_parallel_group\n"))
+M('c12-load-by-rank', 'C12', 'AFF-LOAD', 'position-indexed load table updated by rank',
+  (GA, "            worker_loads[min_worker_index] += cost", "            worker_loads[min_worker] += cost"))
